@@ -107,7 +107,10 @@ impl<'h> FindMatches<'h> {
     /// by the iterator, such that the next call to `next_match` will start searching for matches
     /// at the following position.
     pub fn advance_to(&mut self, position: usize) -> usize {
-        self.inner.advance_to(position)
+        // Matches are reported with positions relative to the start of the haystack, whereas the
+        // implementation works relative to the offset set by `with_offset` or `set_offset`.
+        let start_offset = self.inner.start_offset();
+        self.inner.advance_to(position.saturating_sub(start_offset)) + start_offset
     }
 }
 
